@@ -396,6 +396,33 @@ def Row.render : Row → Option (List Char)
 end Line
 
 /-!
+## The CR step of `ingest_line_utf8` (`src/delta.rs`)
+
+What becomes of an input line before it is passed through raw: when nothing visible follows the
+last `\r` (git writes the closing escape sequences of a CRLF line between the CR and the LF),
+that CR is removed and what follows it is kept. Whether the tail is kept is generated
+(`crStepKeepsTail`); `tailZeroWidth` = `measure_text_width(tail) == 0`, from the implementation.
+-/
+namespace Line
+
+/-- Split at the last `\r`: (before, after). -/
+def splitLastCr : List Char → Option (List Char × List Char)
+  | [] => none
+  | c :: cs =>
+    match splitLastCr cs with
+    | some (a, t) => some (c :: a, t)
+    | none => if c = '\r' then some ([], cs) else none
+
+/-- The CR step. -/
+def crStep (tailZeroWidth : Bool) (line : List Char) : List Char :=
+  match splitLastCr line with
+  | none => line
+  | some (a, t) =>
+    if tailZeroWidth then (if Generated.StyleTables.crStepKeepsTail then a ++ t else a) else line
+
+end Line
+
+/-!
 ## Decorations (`src/handlers/draw.rs`)
 
 Each `write_*` function as the ordered list of what it writes: painted pieces (`Style::paint`, via
